@@ -127,23 +127,54 @@ def writer_table(program) -> Dict[str, dict]:
     return rows
 
 
+def _templates(e, c: Canon, depth=0) -> List[str]:
+    """every text shape an expression can produce, as templates with {expr} holes: f-strings are flattened, locals
+    that stand for a piece of text are expanded, conditional expressions give one template per arm"""
+    if depth > 6:
+        return ['{' + norm_stmt(e) + '}']
+    if isinstance(e, ast.Constant):
+        return [str(e.value)] if isinstance(e.value, str) else ['{' + norm_stmt(e) + '}']
+    if isinstance(e, ast.JoinedStr):
+        outs = ['']
+        for v in e.values:
+            parts = _templates(v.value if isinstance(v, ast.FormattedValue) else v, c, depth + 1) \
+                if not (isinstance(v, ast.FormattedValue) and v.format_spec is not None) else ['{' + norm_stmt(v.value) + ':spec}']
+            outs = [a + b for a in outs for b in parts]
+        return outs
+    if isinstance(e, ast.IfExp):
+        return _templates(e.body, c, depth + 1) + _templates(e.orelse, c, depth + 1)
+    if isinstance(e, ast.BinOp) and isinstance(e.op, ast.Add):
+        return [a + b for a in _templates(e.left, c, depth + 1) for b in _templates(e.right, c, depth + 1)]
+    if isinstance(e, ast.Call) and isinstance(e.func, ast.Name) and e.func.id == 'str' and len(e.args) == 1:
+        return ['{' + norm_stmt(e.args[0]) + '}']
+    if isinstance(e, ast.Name) and c.is_local(e.id):
+        outs = []
+        for kind, payload in c.bindings.get(e.id, []):
+            if kind == 'assign':
+                outs += _templates(payload, c, depth + 1)
+        if outs:
+            return outs
+    return ['{' + norm_stmt(e) + '}']
+
+
 def mod_serialize_shape(program) -> dict:
-    """Mod.serialize: f'{b0}{val}{b1}^{mult}' if mult > 1 else f'{b0}{val}{b1}'; '+' prefix under include_plus"""
+    """Mod.serialize: <b0><val><b1>^<mult> if mult > 1 else <b0><val><b1>; '+' prefix under include_plus"""
     f = program.func('peptacular.proforma.proforma_dataclasses:Mod.serialize')
+    c = Canon(f.node)
     info = {'multiplier_marker': None, 'plus': False, 'brackets_from_arg': False, 'loc': f.loc()}
-    for n in ast.walk(f.node):
-        if isinstance(n, ast.JoinedStr):
-            vals = n.values
-            txt = ''.join(str(v.value) if isinstance(v, ast.Constant) else '{' + norm_stmt(v.value) + '}' for v in vals)
-            if '{brackets[0]}' in txt and '{brackets[1]}' in txt:
-                info['brackets_from_arg'] = True
-                tail = txt.split('{brackets[1]}', 1)[1]
-                if tail:
-                    marker = tail.split('{', 1)[0]
-                    if marker and '{self.mult}' in tail:
-                        info['multiplier_marker'] = marker
-            if txt.startswith('+{self.val}'):
-                info['plus'] = True
+    for n in walk_own(f.node):
+        if isinstance(n, ast.Return) and n.value is not None:
+            for txt in _templates(n.value, c):
+                if '{brackets[0]}' in txt and '{brackets[1]}' in txt:
+                    info['brackets_from_arg'] = True
+                    tail = txt.split('{brackets[1]}', 1)[1]
+                    if tail:
+                        marker = tail.split('{', 1)[0]
+                        if marker and '{self.mult}' in tail:
+                            info['multiplier_marker'] = marker
+                    body = txt.split('{brackets[0]}', 1)[1]
+                    if body.startswith('+{self.val}'):
+                        info['plus'] = True
     return info
 
 
